@@ -133,4 +133,150 @@ Proof.
   - rewrite T4, lafter_app, <- K10. reflexivity.
 Qed.
 
+
+Lemma kinv_other s s' w :
+  ws s' w = ws s w -> (cancelled s' = cancelled s \/ cancelled s' = true) -> ins s' = ins s ->
+  kinv s w -> kinv s' w.
+Proof. intros Hw Hc Hi. apply kinv_frame; auto. intros _ i _. rewrite Hi. auto. Qed.
+
+Lemma Kinv_weffect s w s' : Kinv s -> weffect c s w s' -> Kinv s'.
+Proof.
+  intros HK He w'. specialize (HK w') as K.
+  destruct He as [i a t rest Hsrc Hc Hb | Hsrc Hc | i Hsrc Hc Hb Hcl | ctl' Hcn
+                 | eof a k0 v rest Hc Hs Hcl | eof k0 t r rest Hc Hb | dropped Hp Hnd Hnr Hnc Hwhy | eof a k0 v rest Hc Hs Hcl].
+  - (* take from input i *)
+    destruct (Nat.eq_dec w' w) as [->|Hw].
+    + eapply kinv_take; eauto; simpl; upd_simpl; reflexivity.
+    + apply kinv_frame with s; simpl; upd_simpl; auto.
+      intros He i' Hs'. destruct (Nat.eq_dec i' i) as [->|Hi]; upd_simpl; auto.
+      (* w' has seen the end of input i: it is empty, nothing can be taken from it *)
+      exfalso. destruct (k_input s w' K He i Hs') as [E _]. rewrite E in Hb. discriminate.
+  - destruct (Nat.eq_dec w' w) as [->|Hw].
+    + eapply kinv_take; eauto; simpl; upd_simpl; reflexivity.
+    + apply kinv_other with s; simpl; upd_simpl; auto.
+  - (* end of input *)
+    destruct (Nat.eq_dec w' w) as [->|Hw].
+    + destruct K as [K1 K2 K3 K4 K5 K6 K7 K8 K9 K10].
+      constructor; simpl; upd_simpl; simpl; auto; try discriminate.
+      * intros _ i' Hs'. assert (i' = i) by congruence. subst. auto.
+    + apply kinv_other with s; simpl; upd_simpl; auto.
+  - (* silent control change *)
+    destruct (Nat.eq_dec w' w) as [->|Hw]; [|apply kinv_other with s; simpl; upd_simpl; auto].
+    inversion Hcn as [E1 E2|eof h rest Hsk E1 E2|eof h rest u sel Hsk E1 E2|u sel eof rest E1 E2]; subst ctl'; symmetry in E1; rename E1 into Hc.
+    + (* back to the top of the loop: the plan of the last element is exhausted without a return *)
+      destruct K as [K1 K2 K3 K4 K5 K6 K7 K8 K9 K10].
+      constructor; simpl; upd_simpl; simpl; auto; try discriminate; try (rewrite Hc in *; simpl in *; auto; fail).
+      * intros _. rewrite Hc in K3. destruct (K3 eq_refl) as [(A & B & C)|(xs & a & A & B & C)]; [discriminate|].
+        rewrite A, stopped_snoc, B, <- C. reflexivity.
+      * intros He. destruct (K7 He) as [D|D]; rewrite Hc in D; discriminate.
+    + eapply (kinv_advance s w _ (WRun eof rest) Hc); simpl; auto; try discriminate; upd_simpl; auto.
+      left. exists h. split; auto. apply skippable_not_stop; auto.
+    + eapply (kinv_advance s w _ (WSleep u sel eof rest) Hc); simpl; auto; try discriminate; upd_simpl; auto.
+      left. exists h. split; auto. apply skippable_not_stop. apply sleepy_skippable. auto.
+    + eapply (kinv_advance s w _ (WRun eof rest) Hc); simpl; auto; try discriminate; upd_simpl; auto.
+  - (* push *)
+    destruct (Nat.eq_dec w' w) as [->|Hw]; [|apply kinv_other with s; simpl; upd_simpl; auto].
+    eapply (kinv_advance s w _ (WRun eof rest) Hc); simpl; auto; try discriminate; upd_simpl; auto.
+    left. exists a. split; auto. eapply sends_not_stop; eauto.
+  - (* token *)
+    destruct (Nat.eq_dec w' w) as [->|Hw]; [|apply kinv_other with s; simpl; upd_simpl; auto].
+    eapply (kinv_advance s w _ (WRun eof rest) Hc); simpl; auto; try discriminate; upd_simpl; auto.
+    left. exists (ATok k0). split; auto. discriminate.
+  - (* finish *)
+    unfold finish. set (x' := mkW _ WDone _ _ _). set (s1 := set_w s w x').
+    assert (K1' : kinv s1 w').
+    { destruct (Nat.eq_dec w' w) as [->|Hw]; [|apply kinv_other with s; unfold s1; simpl; upd_simpl; auto].
+      destruct K as [K1 K2 K3 K4 K5 K6 K7 K8 K9 K10].
+      constructor; unfold s1, x'; simpl; upd_simpl; simpl; auto; try discriminate.
+      - intros Hcn _. destruct Hwhy as [Hy|[Hy|(eof & rest & Hy & Hd)]]; [congruence| |].
+        + left. apply K8. rewrite Hy. reflexivity.
+        + destruct eof.
+          * left. apply K8. rewrite Hy. reflexivity.
+          * rewrite Hy in K3. destruct (K3 eq_refl) as [(A & B & C)|(xs & a & A & B & C)]; [auto|].
+            right. left. rewrite A, stopped_snoc, B, <- C. reflexivity.
+      - intros Hcn k. rewrite (K6 Hcn). simpl. rewrite <- Hp.
+        destruct Hwhy as [Hy|[Hy|(eof & rest & Hy & Hd)]]; [congruence|rewrite Hy; reflexivity|rewrite Hy; reflexivity]. }
+    destruct (closer c); [exact K1'|].
+    apply kinv_other with s1; auto using close_all_ins, close_all_cancelled.
+    rewrite close_all_ws. reflexivity.
+  - apply kinv_other with s; auto.
+Qed.
+
+Theorem Kinv_step s e s' : Kinv s -> step c s e = Some s' -> Kinv s'.
+Proof.
+  intros HK Hs. destruct (step_effect c s e s' Hs) as [_ He].
+  destruct He as [i x Hi Hcl | i Hi Hcl | k t v rest Hb | k v w eof a rest Hb Hcap Hcl Hw Hc Hs0 | | | w s' Hw He
+                 | w a todo Hw Hc | Hcl Had Hcd | t Ht].
+  - (* a send completes on input i: not an input whose end somebody has seen (it is closed) *)
+    intros w'. apply kinv_frame with s; auto. simpl. intros He i' Hs'.
+    destruct (Nat.eq_dec i' i) as [->|Hne]; upd_simpl; auto.
+    exfalso. destruct (k_input s w' (HK w') He i Hs') as [_ E]. congruence.
+  - intros w'. apply kinv_frame with s; auto. simpl. intros He i' Hs'.
+    destruct (Nat.eq_dec i' i) as [->|Hne]; upd_simpl; auto.
+    exfalso. destruct (k_input s w' (HK w') He i Hs') as [_ E]. congruence.
+  - intros w'. apply kinv_other with s; auto.
+  - (* rendezvous *)
+    intros w'. destruct (Nat.eq_dec w' w) as [->|Hne]; [|apply kinv_other with s; simpl; upd_simpl; auto].
+    eapply (kinv_advance s w _ (WRun eof rest) Hc); simpl; auto; try discriminate; upd_simpl; auto.
+    left. exists a. split; auto. eapply sends_not_stop; eauto.
+  - exact HK.
+  - intros w'. apply kinv_other with s; simpl; auto.
+  - eapply Kinv_weffect; eauto.
+  - intros w'. destruct (Nat.eq_dec w' w) as [->|Hne]; [|apply kinv_other with s; simpl; upd_simpl; auto].
+    eapply (kinv_advance s w _ (WRun false todo) Hc); simpl; auto; try discriminate; upd_simpl; auto.
+  - intros w'. simpl. apply kinv_other with s; simpl; auto using close_all_ins, close_all_cancelled.
+    rewrite close_all_ws. reflexivity.
+  - intros w'. apply kinv_other with s; auto.
+Qed.
+
+Theorem Kinv_reachable s : reachable c s -> Kinv s.
+Proof. apply reachable_inv; [apply Kinv_init|apply Kinv_step]. Qed.
+
+
+(* a goroutine that returns before its loop never takes anything *)
+Definition prefalse (s : state) (w : nat) : Prop :=
+  pre c w (l0 c w) = false -> wtaken (ws s w) = [] /\ weof (ws s w) = false /\
+                               (wc (ws s w) = WRun false [AStop] \/ wc (ws s w) = WDone).
+
+Lemma prefalse_same s s' w : ws s' w = ws s w -> prefalse s w -> prefalse s' w.
+Proof. unfold prefalse. intros ->. auto. Qed.
+
+Lemma prefalse_close s ks w : prefalse s w -> prefalse (close_all s ks) w.
+Proof. apply prefalse_same. now rewrite close_all_ws. Qed.
+
+Lemma prefalse_weffect s w s' : (forall w', prefalse s w') -> weffect c s w s' -> forall w', prefalse s' w'.
+Proof.
+  intros HP He w'. specialize (HP w') as P.
+  destruct (Nat.eq_dec w' w) as [->|Hne].
+  2:{ destruct He; try (apply prefalse_same with s; simpl; upd_simpl; auto; fail).
+      unfold finish. destruct (closer c); [|apply prefalse_close]; apply prefalse_same with s; simpl; upd_simpl; auto. }
+  intros Hpre. destruct (P Hpre) as (A & B & C).
+  destruct He as [i a t rest Hsrc Hc Hb | Hsrc Hc | i Hsrc Hc Hb Hcl | ctl' Hcn
+                 | eof a k0 v rest Hc Hs Hcl | eof k0 t r rest Hc Hb | dropped Hp Hnd Hnr Hnc Hwhy | eof a k0 v rest Hc Hs Hcl];
+    try (exfalso; destruct C as [C|C]; congruence).
+  - exfalso. destruct C as [C|C]; rewrite C in Hcn; inversion Hcn as [|? ? ? Hsk|? ? ? ? ? Hsk|]; subst.
+    + apply skippable_not_stop in Hsk. congruence.
+    + apply sleepy_skippable, skippable_not_stop in Hsk. congruence.
+  - exfalso. destruct C as [C|C]; rewrite C in Hc; inversion Hc; subst. apply sends_not_stop in Hs. congruence.
+  - unfold finish. destruct (closer c); [|rewrite close_all_ws]; simpl; upd_simpl; simpl; auto.
+  - exfalso. destruct C as [C|C]; rewrite C in Hc; inversion Hc; subst. apply sends_not_stop in Hs. congruence.
+Qed.
+
+Theorem prefalse_reachable s : reachable c s -> forall w, prefalse s w.
+Proof.
+  revert s. apply (reachable_inv c (fun s => forall w, prefalse s w)).
+  - intros w Hpre. unfold init, init_worker. simpl. rewrite Hpre. auto.
+  - intros s0 e s' HP Hs. destruct (step_effect c s0 e s' Hs) as [_ He].
+    destruct He as [i x Hi Hcl | i Hi Hcl | k t v rest Hb | k v w eof a rest Hb Hcap Hcl Hw Hc Hs0 | | | w s'' Hw He
+                   | w a todo Hw Hc | Hcl Had Hcd | t Ht];
+      try (intros w'; apply prefalse_same with s0; auto; fail).
+    + intros w' Hpre. destruct (Nat.eq_dec w' w) as [->|Hne]; [|simpl; upd_simpl; apply HP; auto].
+      exfalso. destruct (HP w Hpre) as (_ & _ & [C|C]); rewrite C in Hc; inversion Hc; subst.
+      apply sends_not_stop in Hs0. congruence.
+    + eapply prefalse_weffect; eauto.
+    + intros w' Hpre. destruct (Nat.eq_dec w' w) as [->|Hne]; [|simpl; upd_simpl; apply HP; auto].
+      exfalso. destruct (HP w Hpre) as (_ & _ & [C|C]); congruence.
+    + intros w'. apply prefalse_same with (close_all s0 (closes c)); auto. apply prefalse_close. auto.
+Qed.
+
 End Stop.
